@@ -201,12 +201,15 @@ POLICIES = ['random', 'random', 'sticky0.5', 'sticky0.9', 'pct1', 'pct2', 'pct3'
 
 # operations that only look at shared state: a thread spinning on them must not starve the threads it
 # is watching, whatever the policy
+LONG_TIMEOUT_S = 5.0
+
+
 OBSERVATIONS = frozenset(['q.qsize', 'q.empty', 'q.full', 'e.is_set', 'l.locked', 'f.done', 't.is_alive'])
 
 
 class _TState:
     __slots__ = ('id', 'name', 'sem', 'pred', 'pending', 'state', 'real', 'deadline', 'timed_out',
-                 'kill', 'ident', 'daemon', 'is_main', 'seen_progress', 'last_obs', 'since_op')
+                 'kill', 'ident', 'daemon', 'is_main', 'seen_progress', 'last_obs', 'since_op', 'long_wait', 'stall')
 
     def __init__(self, tid, name):
         self.id = tid
@@ -225,6 +228,8 @@ class _TState:
         self.seen_progress = 0
         self.last_obs = -1
         self.since_op = 99
+        self.long_wait = False
+        self.stall = None
 
     def __repr__(self):
         return f'<T{self.id} {self.name} {self.state} {self.pending}>'
@@ -307,7 +312,7 @@ class Scheduler:
             self.harness_error = 'uncontrolled thread touched a simulated object'
             raise HarnessError(self.harness_error)
 
-    def yield_point(self, kind, pred=None, info=(), timeout=None, advance=0.0):
+    def yield_point(self, kind, pred=None, info=(), timeout=None, advance=0.0, stall=None):
         """Called by the running thread before an intercepted operation.  Returns True when the
         operation may proceed (pred holds), False when a virtual-time timeout expired first."""
         self._check_caller()
@@ -323,10 +328,15 @@ class Scheduler:
         me.timed_out = False
         me.seen_progress = self.progress
         me.deadline = (self.clock + timeout) if timeout is not None else None
+        # a long time-out is a failure detector, not a polling interval: it expires only when nothing else can
+        # happen (or while an injected stall holds a request back), never merely because other threads computed
+        me.long_wait = timeout is not None and timeout >= LONG_TIMEOUT_S
+        me.stall = stall
         self._switch(me)
         me.pred = None
         me.pending = None
         me.deadline = None
+        me.stall = None
         if kind != 'pre':
             me.since_op = 0
         self.clock += advance
@@ -343,11 +353,18 @@ class Scheduler:
             if t.state == 'done':
                 continue
             p = t.pred
+            if t.stall is not None and not t.stall['released']:
+                # an injected stall: the operation completes only after a time-out has expired somewhere (what
+                # a hung request does to code that has time-outs), or when nothing else can happen at all
+                if self.counters.get('timeout_fired', 0) > t.stall['fired0']:
+                    t.stall['released'] = True
+                    out.append(t)
+                continue
             if p is None and t.pending in OBSERVATIONS and t.last_obs == self.progress:
                 deferred.append(t)        # looked already and nothing has happened since
             elif p is None or p():
                 out.append(t)
-            elif t.deadline is not None and self.progress > t.seen_progress:
+            elif t.deadline is not None and self.progress > t.seen_progress and not t.long_wait:
                 # fairness: between two expiries of the same thread's timers somebody has taken a
                 # real step (not a timer expiry, not a poller's flag check), so polling loops cannot
                 # starve the threads they poll, under any policy
@@ -358,6 +375,12 @@ class Scheduler:
                 out.append(min(waiting, key=lambda t: (t.deadline, t.id)))
         if not out:
             out = deferred
+        if not out:
+            # nothing can happen and no timer is pending: a stalled request completes after all
+            for t in self.threads:
+                if t.state != 'done' and t.stall is not None and not t.stall['released']:
+                    t.stall['released'] = True
+                    out.append(t)
         return out
 
     def _pick(self, me):
@@ -1016,6 +1039,16 @@ class SimFuture:
         self._exc = None
         self._callbacks = []
         self._cancelled = False
+        # sets of futures (what wait() returns) must iterate in an order that is a function of the run, not of
+        # memory addresses
+        name = getattr(ex, 'ename', 'pool-0')
+        self._hash = int(name.rsplit('-', 1)[-1]) * 1000003 + n if name.rsplit('-', 1)[-1].isdigit() else n
+
+    def __hash__(self):
+        return self._hash
+
+    def __eq__(self, other):
+        return self is other
 
     def done(self):
         s = _current_sched
